@@ -29,6 +29,22 @@ base run the way a rotation is (raw counts and everything sampled from them exac
 positions the catalogs stored are held against the model of the reading function (Model/Invariance.v: read, periodic
 in the right ascension and blind to the unit, Props/C13.v C13_count_ra_convention ...): stored unit vectors of the twin
 = unit vectors of the same points given in degrees within [0, 360], to 2^-40 (rows of a catalog paired by distance).
+
+Catalogs with extents of their own (scenarios "extent", generators in props/c13_extents.py): the catalogs of a measurement
+share the patch centres, not the footprint.  After the scenarios above (all catalogs drawn from the same box per patch,
+patches so close that every pair of them is linked whatever the radii) come scenarios in which, per patch, the data reach
+beyond the randoms or stay inside them, one catalog is much sparser, which of ref / unk / rand holds the most rows is drawn,
+and neighbouring centres are just so far apart that the patches hold counted pairs only through the wider catalog (and some
+are too far apart to be linked at all): there the set of patch pairs the code visits depends on the extents of all
+catalogs and on which of them is the largest.  Applied there: rotation and row shuffle as usual, the relabelling twice
+(reversed centre list: every patch pair changes its order; a drawn permutation; totals of every table of both
+measurements and the sampled results compared), and splits of any of the three catalogs - of the largest one into about
+halves, so that another catalog is the largest in the measurements of the parts - with every table that is a sum over the
+pairs of the split catalog with another one (unk: cross dd, rd; ref: cross dd, auto dr; rand: cross rd, auto dr).  The
+histogram "extent:*:patch_pairs_holding_pairs:*" says, from the positions alone, how the patch pairs that hold counted
+pairs relate to the extents (ordinary / either-side / one-sided / bridge, see props/c13_extents.py).  Model:
+Model/Invariance.v linked_count / covers / link_sym / reach; Props/C13.v C13_linked_count_relabel_extents,
+C13_linked_count_additive_extents(_first), C13_reach_covers, C13_one_sided_link_refuted.
 """
 import math
 import os
@@ -55,6 +71,8 @@ ASSUMPTIONS = ["weights are dyadic (small set times a power of two per catalog);
 RULE = ("cases = (base scenario, transformation in {rotation, row shuffle, centre permutation, weight factor on one of ref/unk/rand, 2-split, "
         "input convention: field (base / cut by the RA=0 meridian / laid along it / on a pole) x unit (deg / rad) x RA range (canonical / signed / +-period / "
         "own multiple per object) x catalogs (all / one) x centres (canonical / re-expressed)}), "
+        "plus scenarios with an own extent per catalog and patch (data beyond / inside the randoms, one sparse catalog, any of the three the largest, "
+        "centre gaps at the limit of the linkage) x {rotation, row shuffle, reversed and drawn centre permutation, split of any catalog (even / uneven)}; "
         "each compared as measured and after CorrFunc.to_file/from_file; distinct by scenario seed + transformation parameters; "
         "non-trivial when the base measurement has non-zero counts")
 HEADER = "From Verif Require Import Prelude Invariance.\nOpen Scope Q_scope.\n"
@@ -364,7 +382,7 @@ def run(ctx):
                  "the transformed twin of an accepted measurement raises %s: %s" % (type(exc).__name__, str(exc)[:200]),
                  meta, case=cid)
 
-    n_std, n_ext = ctx.n(14, 80), ctx.n(4, 24)
+    n_std, n_ext = ctx.n(14, 80), ctx.n(6, 24)
     for sc in range(n_std + n_ext):
         ext = sc >= n_std       # catalogs with their own extent per patch (props/c13_extents.py), after all the others
         npatch = rng.choice([3, 4]) if not ext else None
@@ -390,17 +408,14 @@ def run(ctx):
             base = dict(cents=cents, ref=sample(7, True, bexp["ref"]), unk=sample(6, False, bexp["unk"])[:2],
                         rand=sample(7, True, bexp["rand"]))
         else:
-            # p = the largest counted angle [deg]: the upper scale limit at the centre of the first redshift bin
-            p_deg = max(float(np.rad2deg(np.max(cfg.scales.scales.get_angle_radian((a + b) / 2, cosmology=cfg.cosmology)[1])))
-                        for a, b in zip(edges[:-1], edges[1:]))
+            # p = the largest counted angle [deg]: the upper scale limit at the centre of the first redshift bin;
+            # lam * p = the angle a linkage has to allow for (the code: the limit at the lower end of the redshift range, if larger)
+            upper = lambda z: float(np.rad2deg(np.max(cfg.scales.scales.get_angle_radian(z, cosmology=cfg.cosmology)[1])))
+            p_deg = max(upper((a + b) / 2) for a, b in zip(edges[:-1], edges[1:]))
+            lam = max(p_deg, upper(edges[0])) / p_deg
             bexp = {"ref": 0, "unk": 0, "rand": 0}
-            for attempt in range(20):
-                lay = cx.layout(rng, p_deg)
-                drawn = {c: cx.points(rng, lay, p_deg, c) for c in cx.CATS}
-                hist, special = cx.classify(lay, drawn, p_deg)
-                if special:
-                    break
-            else:
+            lay, drawn, hist, special = cx.draw(rng, p_deg, lam)
+            if not special:
                 ctx.bump("extent:no_patch_pair_beyond_the_largest_catalog_found")
             npatch, cents = lay["npatch"], lay["cents"]
             owners = {c: drawn[c][1] for c in cx.CATS}
@@ -412,7 +427,7 @@ def run(ctx):
                 z = [rng.choice(zs[:2]) if (i < 2 or own[i - 2] != own[i]) else rng.choice(zs) for i in range(len(pts))] if with_z else None
                 return pts, w, z
             base = dict(cents=cents, ref=cols("ref", True), unk=cols("unk", False)[:2], rand=cols("rand", True))
-            layout_meta = dict(cx.describe(lay), largest_counted_angle_deg=float(p_deg).hex(),
+            layout_meta = dict(cx.describe(lay), largest_counted_angle_deg=float(p_deg).hex(), linkage_angle_over_it=round(lam, 4),
                                patch_pairs_beyond_the_largest_catalog=[list(x) for x in special[:8]])
             for lk, h in hist.items():
                 for kk, v in h.items():
@@ -484,13 +499,13 @@ def run(ctx):
         else:
             # catalogs with extents of their own: the usual rotation and row shuffle, the relabelling twice (the reversed centre
             # list swaps the order of every patch pair; a drawn permutation), and splits of ANY of the three catalogs - of the
-            # largest one into uneven parts (another catalog becomes the largest: the geometry is taken from elsewhere), of
-            # another one evenly; thorough tier: every catalog, even and uneven
+            # largest one into about halves (another catalog becomes the largest: the geometry is taken from elsewhere), of
+            # another one evenly or unevenly; thorough tier: every catalog, even and uneven
             big = max(cx.CATS, key=lambda c: len(base[c][0]))
             trs = [("rot:random", False, None), ("shuffle", False, None), ("centres:reverse", True, "reverse"), ("centres:random", True, "random")]
-            f_big = rng.choice([0.15, 0.3, 0.85])
+            f_big = rng.choice([0.4, 0.5, 0.6])        # about halves: mostly another catalog is the largest of each part's measurement
             other = rng.choice([c for c in cx.CATS if c != big])
-            splits = [(big, f_big), (other, 0.5)]
+            splits = [(big, f_big), (other, rng.choice([0.15, 0.5, 0.85]))]
             if not ctx.quick():
                 splits += [(c, f) for c in cx.CATS for f in (0.15, 0.5, 0.85) if (c, f) not in splits]
             trs += [("split:%s:%g" % (c, f), True, (c, f)) for c, f in splits]
